@@ -241,4 +241,112 @@ theorem sortedBy_of_map_litData (l : List (List Nat)) (hp : ∀ x ∈ l, plainNa
       rw [← lexLe_litData a b (hp a (by simp)) (hp b (by simp))]
       exact h.1
 
+/-! ### distinct names give distinct keys -/
+
+/-- Unicode scalar values: what a Python `str` that can be encoded holds (no lone surrogates). -/
+def scalar (c : Nat) : Bool := c < 0x110000 && !(0xD800 ≤ c && c ≤ 0xDFFF)
+def validStr (s : PyStr) : Bool := s.all scalar
+
+theorem utf16be_ne_nil (c : Nat) : utf16be c ≠ [] := by
+  unfold utf16be; split <;> simp
+
+theorem utf16be_head_inj (c d : Nat) (r r' : List Nat) (hc : scalar c = true) (hd : scalar d = true)
+    (h : utf16be c ++ r = utf16be d ++ r') : c = d ∧ r = r' := by
+  simp only [scalar, Bool.and_eq_true, decide_eq_true_eq, Bool.not_eq_true', Bool.and_eq_false_iff,
+    decide_eq_false_iff_not] at hc hd
+  unfold utf16be at h
+  by_cases h1 : c < 0x10000 <;> by_cases h2 : d < 0x10000 <;> simp only [h1, h2, if_true, if_false] at h
+  · simp only [List.cons_append, List.nil_append, List.cons.injEq] at h
+    exact ⟨by omega, h.2.2⟩
+  · simp only [List.cons_append, List.nil_append, List.cons.injEq] at h
+    omega
+  · simp only [List.cons_append, List.nil_append, List.cons.injEq] at h
+    omega
+  · simp only [List.cons_append, List.nil_append, List.cons.injEq] at h
+    exact ⟨by omega, h.2.2.2.2⟩
+
+theorem flatMap_utf16be_inj (s t : PyStr) (hs : validStr s = true) (ht : validStr t = true)
+    (h : s.flatMap utf16be = t.flatMap utf16be) : s = t := by
+  induction s generalizing t with
+  | nil =>
+    cases t with
+    | nil => rfl
+    | cons d ds =>
+      simp only [List.flatMap_nil, List.flatMap_cons] at h
+      have := utf16be_ne_nil d
+      cases hd : utf16be d with
+      | nil => exact absurd hd this
+      | cons x xs => rw [hd] at h; simp at h
+  | cons c cs ih =>
+    cases t with
+    | nil =>
+      simp only [List.flatMap_nil, List.flatMap_cons] at h
+      have := utf16be_ne_nil c
+      cases hd : utf16be c with
+      | nil => exact absurd hd this
+      | cons x xs => rw [hd] at h; simp at h
+    | cons d ds =>
+      simp only [validStr, List.all_cons, Bool.and_eq_true] at hs ht
+      simp only [List.flatMap_cons] at h
+      obtain ⟨e, hr⟩ := utf16be_head_inj c d _ _ hs.1 ht.1 h
+      rw [e, ih ds (by simpa [validStr] using hs.2) (by simpa [validStr] using ht.2) hr]
+
+theorem keyBytes_inj (s t : PyStr) (hs : validStr s = true) (ht : validStr t = true)
+    (h : keyBytes s = keyBytes t) : s = t := by
+  unfold keyBytes at h
+  by_cases a : isAscii s = true <;> by_cases b : isAscii t = true <;> simp only [a, b, if_true, if_false] at h
+  · exact h
+  · subst h
+    simp [isAscii] at a
+  · subst h
+    simp [isAscii] at b
+  · exact flatMap_utf16be_inj s t hs ht (by simpa using h)
+
+theorem lexLt_trichotomy (a b : List Nat) : lexLt a b = true ∨ a = b ∨ lexLt b a = true := by
+  induction a generalizing b with
+  | nil => cases b <;> simp [lexLt]
+  | cons x xs ih =>
+    cases b with
+    | nil => simp [lexLt]
+    | cons y ys =>
+      simp only [lexLt, Bool.or_eq_true, decide_eq_true_eq, Bool.and_eq_true, beq_iff_eq, List.cons.injEq]
+      rcases Nat.lt_trichotomy x y with h | h | h
+      · exact Or.inl (Or.inl h)
+      · subst h
+        rcases ih ys with h1 | h1 | h1
+        · exact Or.inl (Or.inr ⟨rfl, h1⟩)
+        · exact Or.inr (Or.inl ⟨rfl, h1⟩)
+        · exact Or.inr (Or.inr (Or.inr ⟨rfl, h1⟩))
+      · exact Or.inr (Or.inr (Or.inl h))
+
+/-- Sorted without repeats is strictly sorted. -/
+theorem sortedBy_strict (l : List (List Nat)) (hs : sortedBy lexLe l = true) (hn : l.Nodup) :
+    sortedBy lexLt l = true := by
+  induction l with
+  | nil => rfl
+  | cons a rest ih =>
+    cases rest with
+    | nil => rfl
+    | cons b more =>
+      simp only [sortedBy, Bool.and_eq_true] at hs ⊢
+      have hn' := List.nodup_cons.mp hn
+      refine ⟨?_, ih (by simpa [sortedBy] using hs.2) hn'.2⟩
+      have hne : a ≠ b := fun e => hn'.1 (e ▸ List.mem_cons_self)
+      rcases lexLt_trichotomy a b with h | h | h
+      · exact h
+      · exact absurd h hne
+      · have := hs.1; simp [lexLe, h] at this
+
+theorem map_keyBytes_nodup (l : List PyStr) (hn : l.Nodup) (hv : ∀ x ∈ l, validStr x = true) :
+    (l.map keyBytes).Nodup := by
+  induction l with
+  | nil => simp
+  | cons a rest ih =>
+    have hn' := List.nodup_cons.mp hn
+    simp only [List.map_cons, List.nodup_cons, List.mem_map, not_exists, not_and]
+    refine ⟨?_, ih hn'.2 (fun x hx => hv x (List.mem_cons_of_mem _ hx))⟩
+    intro x hx heq
+    have := keyBytes_inj x a (hv x (List.mem_cons_of_mem _ hx)) (hv a List.mem_cons_self) heq
+    exact hn'.1 (this ▸ hx)
+
 end Wp.PdfNames
